@@ -133,6 +133,12 @@ class ScaledFunctional(Functional):
         self.scale = scale
         self.has_eval = functional.has_eval
         self.has_prox = functional.has_prox
+        # prox_{lam (c f)} = prox_{(lam c) f} requires a positive real scale c
+        try:
+            if not (snp.isrealobj(scale) and bool(scale > 0)):
+                self.has_prox = False
+        except Exception:  # traced scale: sign unknown at construction time
+            pass
         super().__init__()
 
     def __repr__(self):
